@@ -2,6 +2,7 @@
 From RRE Require Import Base.Sx Base.Float Base.Num Model.ExprShape Model.Forward Model.ForwardSpec Model.Grl Proofs.GrlProofs Proofs.GrlTreeProofs Proofs.SourceTablesProofs.
 From RRE Require Generated.Consts.
 Open Scope Z_scope.
+From RRE Require Import Model.GrlSplit Proofs.GrlSplitProofs.
 From RRE Require Import Properties.C04.
 Check (C04_string_literals_opaque : forall op q s, ((q =? 34) || (q =? 39)) = true -> memc q s = false -> inert op (q :: s ++ [q])).
 Check (C04_parentheses_protect : forall op t, inert_in op t -> op <> 40 -> op <> 41 -> inert op (40 :: t ++ [41])).
@@ -16,3 +17,10 @@ Check (C04_plain_leaf_ok : forall t c r c' r', t = c :: r -> rev t = c' :: r' ->
   ws_unicode c = false -> (c =? 33) = false -> ws_unicode c' = false -> leaf_ok t).
 Check (C04_string_leaf_ok : forall a c r q s, a = c :: r -> forallb ord2 a = true -> ws_unicode c = false -> (c =? 33) = false ->
   ((q =? 34) || (q =? 39)) = true -> memc q s = false -> leaf_ok (a ++ q :: s ++ [q])).
+Check (C04_literal_is_opaque_to_splitting : forall sep x content,
+  is_quote x = true -> is_quote sep = false -> ~ In x content -> piece_ok sep (literal x content)).
+Check (C04_pieces_compose : forall sep a b, piece_ok sep a -> piece_ok sep b -> piece_ok sep (a ++ b)).
+Check (C04_then_statements_roundtrip : forall ps, ps <> [] -> Forall (piece_ok 59) ps ->
+  then_statements (join 59 ps) = filter nonempty (map trimw ps)).
+Check (C04_split_arguments_roundtrip : forall ps, ps <> [] -> Forall (piece_ok 44) ps -> split_arguments (join 44 ps) = ps).
+Check (C04_statement_classification_total : forall st, classify st <> SPanic).
